@@ -101,8 +101,14 @@ func c20Judge(res *explore.Result, q string) (n int, ok bool) {
 	var out []uint32
 	panicked := func() (p any) {
 		defer func() { p = recover() }()
-		for _, o := range wire.ParseParameters(q) {
+		got := wire.ParseParameters(q)
+		for _, o := range got {
 			out = append(out, uint32(o))
+		}
+		// a caller is free to annotate the list it was given (e.g. fill in types it knows): that must never
+		// show up in a later, unrelated result
+		for i := range got {
+			got[i] = 23
 		}
 		return nil
 	}()
@@ -187,7 +193,12 @@ func c20Enumerate(tier string, emit explore.Emit) {
 				return res
 			}
 			one.Step(pgproto.Startup("user", "u"))
-			out, _ := one.Step(pgproto.Cat(pgproto.Parse("s", q), pgproto.Describe('S', "s"), pgproto.Sync()))
+			// the frontend may pre-declare types for only some (or none) of the placeholders
+			declared := make([]uint32, n%3)
+			for i := range declared {
+				declared[i] = 25
+			}
+			out, _ := one.Step(pgproto.Cat(pgproto.Parse("s", q, declared...), pgproto.Describe('S', "s"), pgproto.Sync()))
 			one.Stop()
 			ms, err := pgproto.ParseBackend(out)
 			if err != nil {
